@@ -4,16 +4,18 @@ CONSTANTS
   ResidueAfterFailure = FALSE
   ShortCookieRead = FALSE
   DialResetsData = TRUE
-  Alpns <- AlpnsTls
-  Alphabet <- AlphaAll
-  CutRecs <- CutCore
-  MaxRecs = 3
+  Alpns <- AlpnsOk
+  Alphabet <- AlphaNaming
+  CutRecs <- CutNone
+  MaxRecs = 6
   MaxDials = 1
-  MaxCalls = 1
+  MaxCalls = 3
   MaxStore = 0
   CtxMode = "ignored"
   MaxStalls = 0
   StaleNextHop = FALSE
   Tails = FALSE
-  Vias <- ViasAny
-INVARIANTS Emit RunAgrees
+  Vias <- ViasMeasure
+  MaxNaming <- MaxNaming3
+CONSTRAINT Naming
+INVARIANTS EmitNaming RunAgrees
